@@ -97,4 +97,28 @@ def recvN : Nat → Sock → List Recv
     | (.msg b, s') => .msg b :: recvN k s'
     | (r, _) => [r]
 
+/-! ### the sending side over a transport that writes short
+
+`send_msg` hands the whole frame to `sock.sendall`. `sendall` is the loop below over `send`, which may accept any
+non-zero number of bytes per call (`caps[i] + 1`, everything once the list is exhausted): a short write is legal for a
+socket with a timeout, a non-blocking socket or a send interrupted by a signal. The harness gives the real `send_msg` a
+transport whose `send` / `sendmsg` write short according to the same list and compares the bytes on the wire. -/
+
+/-- `sock.sendall(data)` -/
+def sendAll : (fuel : Nat) → List Byte → List Nat → List Byte → List Byte × List Nat
+  | _, [], caps, wire => (wire, caps)
+  | 0, _ :: _, caps, wire => (wire, caps)            -- unreachable with fuel = data.length
+  | fuel + 1, b :: bs, caps, wire =>
+    let k := match caps with
+      | [] => (b :: bs).length
+      | c :: _ => min (b :: bs).length (c + 1)
+    sendAll fuel ((b :: bs).drop k) caps.tail (wire ++ (b :: bs).take k)
+
+/-- `send_msg` for each message in turn; returns the bytes on the wire -/
+def sendMsgs : List (List Byte) → List Nat → List Byte → List Byte
+  | [], _, wire => wire
+  | m :: ms, caps, wire =>
+    let (wire', caps') := sendAll (encode m).length (encode m) caps wire
+    sendMsgs ms caps' wire'
+
 end PwVerif.Framing
